@@ -19,6 +19,7 @@ struct Thr {
     bool appending = false;        // between startAppending() call and stop/unlock return
     long appendFrom = -1;          // time startAppending was invoked (may be visible from then on)
     long appendUntil = -1;         // time the append mode was certainly over (stop/unlock returned); -1 = still on
+    long restoredAt = -1;          // time stopAppendingAndRestoreExclusive() returned TRUE: exclusive from then on
 };
 
 std::string gen(Rng &r)
@@ -69,7 +70,9 @@ void run(Ctx &ctx, const std::string &w)
             // allowed only if the writer was (possibly) in append mode at some instant of [call, ret]
             const Thr &W = th[wtr];
             const bool mayAppend = W.appendFrom >= 0 && W.appendFrom <= ret && (W.appendUntil < 0 || W.appendUntil >= call);
-            if (!mayAppend)
+            if (W.restoredAt >= 0 && W.restoredAt <= ret && !W.appending)
+                fail(std::string("rwlock:reader-admitted-after-exclusive-restored:") + how, "thread " + std::to_string(me) + " got a shared lock (call t=" + std::to_string(call) + ", return t=" + std::to_string(ret) + ") although thread " + std::to_string(wtr) + " was told at t=" + std::to_string(W.restoredAt) + " that its access is exclusive again");
+            else if (!mayAppend)
                 fail(std::string("rwlock:reader-beside-exclusive-writer:") + how, "thread " + std::to_string(me) + " got a shared lock while thread " + std::to_string(wtr) + " holds the exclusive lock and was not appending at any time during the acquisition");
             else
                 ++sharedBesideAppender;
@@ -111,11 +114,11 @@ void run(Ctx &ctx, const std::string &w)
                     break;
                 case 'w':
                     if (me.hold != None) break;
-                    if (lock.lockExclusive()) { exclAcquired(t, "lockExclusive"); me.hold = Excl; me.appending = false; me.appendFrom = me.appendUntil = -1; } else ++failures;
+                    if (lock.lockExclusive()) { exclAcquired(t, "lockExclusive"); me.hold = Excl; me.appending = false; me.appendFrom = me.appendUntil = -1; me.restoredAt = -1; } else ++failures;
                     break;
                 case 'a':
                     if (me.hold != Excl || me.appending) break;
-                    me.appending = true; me.appendFrom = call; me.appendUntil = -1;
+                    me.appending = true; me.appendFrom = call; me.appendUntil = -1; me.restoredAt = -1;
                     lock.startAppending();
                     break;
                 case 's': {
@@ -127,6 +130,7 @@ void run(Ctx &ctx, const std::string &w)
                     const long ret = verif::Tick();
                     me.appending = false; me.appendUntil = ret;
                     if (restored) {
+                        me.restoredAt = ret;
                         for (int i : before)
                             if (th[i].hold == Shared || th[i].hold == Headers) // still holding: held during the whole call
                                 fail("rwlock:exclusive-restored-beside-reader", "stopAppendingAndRestoreExclusive() returned true while thread " + std::to_string(i) + " held a shared lock throughout");
@@ -141,7 +145,7 @@ void run(Ctx &ctx, const std::string &w)
                 case 'y':
                     if (me.hold != Shared) break;
                     me.hold = None; // the shared lock is given up in any case
-                    if (lock.unlockSharedAndSwitchToExclusive()) { exclAcquired(t, "unlockSharedAndSwitchToExclusive"); me.hold = Excl; me.appending = false; me.appendFrom = me.appendUntil = -1; } else ++failures;
+                    if (lock.unlockSharedAndSwitchToExclusive()) { exclAcquired(t, "unlockSharedAndSwitchToExclusive"); me.hold = Excl; me.appending = false; me.appendFrom = me.appendUntil = -1; me.restoredAt = -1; } else ++failures;
                     break;
                 case 'R': if (me.hold == Shared) releaseAll(); break;
                 case 'W': if (me.hold == Excl) releaseAll(); break;
